@@ -104,6 +104,7 @@ def check(ctx: Ctx) -> None:
     ctx.rule('C04.a', 'every product/solve/elementwise op of precoder, filter, encode, channel, decode is conformable for all Nr >= Nt '
                       'and the chain maps (Nt*n,) to (Nt*n,)', floor=20)
     runs = [(c, s, ('Nr', 'Nt')) for c, s in SCHEMES] + [('MRT', (1, 'Nt'), None)]
+    cannot_tell: List[str] = []
     for cname, hshape, order in runs:
         it, stages, expect, owners = run_scheme(ctx, cname, hshape, order)
         if cname == 'MRT':
@@ -130,7 +131,8 @@ def check(ctx: Ctx) -> None:
             it, stages = it2, st
         unknown = {k: v for k, v in stages.items() if isinstance(v, str)}
         if unknown:
-            ctx.error('C04.a: shape interpreter cannot tell for %s: %s' % (cname, unknown))
+            cannot_tell.append('%s: %s' % (cname, unknown))
+            continue
         for name, want in expect.items():
             construct = '%s:%s' % (cname, name)
             ctx.instance('C04.a', construct)
@@ -183,6 +185,14 @@ def check(ctx: Ctx) -> None:
         if not ok:
             ctx.violation('C04.b', dec.qualname, 'encode of %s lays the symbols out with order %s but decode reads them back with order '
                           '%s: the decoded stream is a permutation of the data' % (cname, eo, do), dec.path, dec.lineno, operand='order:' + cname)
+
+    from ..dsf import auto_memo_check
+    ctx.rule('C04.c', 'no auto-discovered lazily filled cache of the classes in the anchored modules can be stale at the exit of a public method (dependencies = what the fill expression reads, incl. mutating calls on held sub-objects)', floor=6)
+    auto_memo_check(ctx, 'C04.c', [MI])
+    if cannot_tell:
+        if not ctx.violations:
+            ctx.error('C04.a: shape interpreter cannot tell for ' + '; '.join(cannot_tell))
+        ctx.note('C04.a could not be decided for: ' + '; '.join(cannot_tell))
 
 
 def synthetic():
